@@ -88,6 +88,12 @@ def render(a, scale, variant):
         return big[sl]
     if variant == 3:
         if scale == 1 and np.issubdtype(ai.dtype, np.integer):
+            # the narrowest signed dtype in which every component and every product of two components is exact
+            # (+-1 spins as int8, lattice displacements as int16): only sums can exceed it
+            m = int(np.max(np.abs(ai))) if ai.size else 0
+            for dt, lim in ((np.int8, 11), (np.int16, 181), (np.int32, 46340)):
+                if m <= lim and ai.size % 3 != 2:
+                    return ai.astype(dt)
             return ai.astype(np.int64 if ai.size % 2 else np.int32)
         return np.asfortranarray(x)
     return x
